@@ -940,6 +940,57 @@ func (e *Engine) findIndicesTeddyAt(haystack []byte, at int) (int, int, bool) {
 	return e.findIndicesNFAAt(haystack, pos)
 }
 
+// candidateBudget bounds the total work of verifying prefilter candidates one by
+// one with an anchored DFA scan. A failed scan from candidate p can run far past
+// the following candidates, which are then verified over the same bytes again:
+// on [0-9][a-z0-9]*X and a long run of digits every candidate rescans the rest
+// of the run, O(n^2) in total. The budget charges each failed scan its length
+// (stop - p, from SearchAtAnchoredStopAt) and allows the total to reach a constant
+// multiple of the distance advanced since the search began, plus a fixed
+// allowance. Within the budget the candidate loop costs O(n); once it is
+// exceeded the caller abandons the loop for ONE unanchored search from the
+// current position (O(n) DFA, or O(n*m) PikeVM), so a search is linear overall.
+// (Rust regex handles an ineffective prefilter the same way: it is switched off
+// and the regex engine runs alone.)
+type candidateBudget struct {
+	origin int // position at which the search began
+	spent  int // bytes read by failed verification scans so far
+}
+
+const (
+	// candidateBudgetFactor is how many bytes failed scans may read per byte of
+	// progress. It is set near the cost ratio between a PikeVM step and a DFA
+	// step, so the loop is abandoned about when the fallback becomes cheaper.
+	candidateBudgetFactor = 32
+	// candidateBudgetAllowance keeps short haystacks and isolated long scans
+	// from ever triggering the fallback.
+	candidateBudgetAllowance = 4096
+)
+
+// charge records a failed verification scan that started at candidate position
+// pos and examined haystack[pos:stop]. It returns false when the budget is
+// exhausted and the caller must fall back to a single unanchored search.
+func (b *candidateBudget) charge(pos, stop int) bool {
+	b.spent += stop - pos
+	return b.spent <= candidateBudgetFactor*(pos-b.origin)+candidateBudgetAllowance
+}
+
+// findIndicesAfterBudget finishes a candidate-loop search whose verification
+// budget is exhausted: no match starts before 'at' (every earlier candidate was
+// rejected), so the leftmost match is whatever one unanchored search from 'at'
+// finds. The DFA answers the common "no match at all" case in a single fast
+// pass; PikeVM reports the exact leftmost-first bounds otherwise.
+func (e *Engine) findIndicesAfterBudget(haystack []byte, at int, state *SearchState) (int, int, bool) {
+	if at > len(haystack) {
+		return -1, -1, false
+	}
+	if e.dfa != nil && !e.dfa.IsMatchAt(state.dfaCache, haystack, at) {
+		return -1, -1, false
+	}
+	atomic.AddUint64(&e.stats.NFASearches, 1)
+	return state.pikevm.SearchAt(haystack, at)
+}
+
 // findIndicesDigitPrefilter returns indices using digit prefilter - zero alloc.
 func (e *Engine) findIndicesDigitPrefilter(haystack []byte) (int, int, bool) {
 	if e.digitPrefilter == nil {
@@ -948,6 +999,7 @@ func (e *Engine) findIndicesDigitPrefilter(haystack []byte) (int, int, bool) {
 
 	atomic.AddUint64(&e.stats.PrefilterHits, 1)
 	pos := 0
+	budget := candidateBudget{origin: pos}
 
 	// Acquire pooled state once for the entire loop
 	state := e.getSearchState()
@@ -963,16 +1015,17 @@ func (e *Engine) findIndicesDigitPrefilter(haystack []byte) (int, int, bool) {
 			atomic.AddUint64(&e.stats.DFASearches, 1)
 			// Use anchored search - pattern MUST start at digitPos
 			// This is much faster than PikeVM for patterns that require digit start
-			endPos := e.dfa.SearchAtAnchored(state.dfaCache, haystack, digitPos)
+			endPos, stop := e.dfa.SearchAtAnchoredStopAt(state.dfaCache, haystack, digitPos)
 			if endPos != -1 {
 				return digitPos, endPos, true
 			}
-		} else {
-			atomic.AddUint64(&e.stats.NFASearches, 1)
-			start, end, found := state.pikevm.SearchAt(haystack, digitPos)
-			if found {
-				return start, end, true
+			if !budget.charge(digitPos, stop) {
+				return e.findIndicesAfterBudget(haystack, digitPos+1, state)
 			}
+		} else {
+			// PikeVM searches unanchored from digitPos: its answer is final.
+			atomic.AddUint64(&e.stats.NFASearches, 1)
+			return state.pikevm.SearchAt(haystack, digitPos)
 		}
 
 		pos = digitPos + 1
@@ -997,6 +1050,7 @@ func (e *Engine) findIndicesDigitPrefilterAt(haystack []byte, at int) (int, int,
 
 	atomic.AddUint64(&e.stats.PrefilterHits, 1)
 	pos := at
+	budget := candidateBudget{origin: pos}
 
 	// Acquire pooled state once for the entire loop
 	state := e.getSearchState()
@@ -1012,16 +1066,17 @@ func (e *Engine) findIndicesDigitPrefilterAt(haystack []byte, at int) (int, int,
 			atomic.AddUint64(&e.stats.DFASearches, 1)
 			// Use anchored search - pattern MUST start at digitPos
 			// This is much faster than PikeVM for patterns that require digit start
-			endPos := e.dfa.SearchAtAnchored(state.dfaCache, haystack, digitPos)
+			endPos, stop := e.dfa.SearchAtAnchoredStopAt(state.dfaCache, haystack, digitPos)
 			if endPos != -1 {
 				return digitPos, endPos, true
 			}
-		} else {
-			atomic.AddUint64(&e.stats.NFASearches, 1)
-			start, end, found := state.pikevm.SearchAt(haystack, digitPos)
-			if found {
-				return start, end, true
+			if !budget.charge(digitPos, stop) {
+				return e.findIndicesAfterBudget(haystack, digitPos+1, state)
 			}
+		} else {
+			// PikeVM searches unanchored from digitPos: its answer is final.
+			atomic.AddUint64(&e.stats.NFASearches, 1)
+			return state.pikevm.SearchAt(haystack, digitPos)
 		}
 
 		pos = digitPos + 1
@@ -1044,6 +1099,7 @@ func (e *Engine) findIndicesDigitPrefilterAtWithState(haystack []byte, at int, s
 
 	atomic.AddUint64(&e.stats.PrefilterHits, 1)
 	pos := at
+	budget := candidateBudget{origin: pos}
 
 	for pos < len(haystack) {
 		digitPos := e.digitPrefilter.Find(haystack, pos)
@@ -1054,16 +1110,17 @@ func (e *Engine) findIndicesDigitPrefilterAtWithState(haystack []byte, at int, s
 		if e.dfa != nil {
 			atomic.AddUint64(&e.stats.DFASearches, 1)
 			// Use anchored search - pattern MUST start at digitPos
-			endPos := e.dfa.SearchAtAnchored(state.dfaCache, haystack, digitPos)
+			endPos, stop := e.dfa.SearchAtAnchoredStopAt(state.dfaCache, haystack, digitPos)
 			if endPos != -1 {
 				return digitPos, endPos, true
 			}
-		} else {
-			atomic.AddUint64(&e.stats.NFASearches, 1)
-			start, end, found := state.pikevm.SearchAt(haystack, digitPos)
-			if found {
-				return start, end, true
+			if !budget.charge(digitPos, stop) {
+				return e.findIndicesAfterBudget(haystack, digitPos+1, state)
 			}
+		} else {
+			// PikeVM searches unanchored from digitPos: its answer is final.
+			atomic.AddUint64(&e.stats.NFASearches, 1)
+			return state.pikevm.SearchAt(haystack, digitPos)
 		}
 
 		pos = digitPos + 1
